@@ -88,6 +88,14 @@ func (r *rwRT) nameGenerator() *ssa.Function {
 			}
 		}
 	}
+	return nil
+}
+
+// nameGeneratorMust: as nameGenerator; its absence is reported as undecided.
+func (r *rwRT) nameGeneratorMust() *ssa.Function {
+	if fn := r.nameGenerator(); fn != nil {
+		return fn
+	}
 	undecided("the function that names the iterator temporaries is not found (rewriteRangeToForIter calls no string-valued function of the package with a constant prefix)")
 	return nil
 }
@@ -95,7 +103,7 @@ func (r *rwRT) nameGenerator() *ssa.Function {
 func (r *rwRT) ruleGensym() {
 	c := r.c
 	c.min("DET.GENSYM", 2)
-	fn := r.nameGenerator()
+	fn := r.nameGeneratorMust()
 	c.fn(relName(fn))
 	pos := r.w.FnPos(fn)
 	// (1) behaviour outside test mode: counter incremented, name built from the counter
